@@ -123,6 +123,18 @@ type fdSide struct {
 	pureFns map[types.Object]bool
 	// positions where a run is not read as a table: the other side has none to compare it with
 	noTableAt map[token.Pos]bool
+	// findings of the walk that are reported in their own words (rules_t8c10.go)
+	notes []fdNote
+	// fork: package-level tables decided to be memo tables of pure functions (rules_t8c10_memo.go);
+	// the `ok` results of their lookups (read as false) and the results of LoadOrStore (read as the
+	// value offered) — see fdMemoReads
+	memo      map[types.Object]bool
+	falseObjs map[types.Object]bool
+	memoVals  map[types.Object]ast.Expr
+	// fork: functions of the package decided to be pure on the SSA (rules_t8c10_memo.go)
+	pureFuncs map[types.Object]bool
+	// fork: the parameter structure of the slice decoder, evaluated field by field (rules_t8c10_elem.go)
+	elem *c10Elem
 }
 
 // fdSingleDefs finds the locals of fd that are defined exactly once by a 1:1
@@ -461,8 +473,14 @@ func (c *fdCtx) ident(id *ast.Ident) string {
 	if o == nil {
 		return id.Name
 	}
-	if c.s.laxObjs[o] {
+	if c.s.laxObjs[o] || c.s.falseObjs[o] {
 		return "false"
+	}
+	if v, ok := c.s.memoVals[o]; ok && !c.busy[o] {
+		c.busy[o] = true
+		s := c.expr(v)
+		delete(c.busy, o)
+		return s
 	}
 	if a, ok := c.bind[o]; ok {
 		saved := c.bind
@@ -472,6 +490,11 @@ func (c *fdCtx) ident(id *ast.Ident) string {
 		return s
 	}
 	if p, ok := c.params[o]; ok {
+		if p == "⊘" {
+			if t, ok := c.paramStruct(o); ok {
+				return t
+			}
+		}
 		return p
 	}
 	if a := c.aliasOf(o); a != nil {
@@ -647,6 +670,9 @@ func (c *fdCtx) expr(e ast.Expr) string {
 		if c.plainErrorf(e) {
 			return "errors.New(" + c.exprs(args) + ")"
 		}
+		if s, ok := c.tabLen(e); ok {
+			return s // the length of a slice filled by tabulation (rules_t8c10.go)
+		}
 		if s, ok := c.textForm(e); ok {
 			return s // decimal formatting / string building in one form (rules_r4c10.go)
 		}
@@ -674,6 +700,9 @@ func (c *fdCtx) expr(e ast.Expr) string {
 		}
 		return c.expr(e.Fun) + "(" + c.exprs(args) + ")"
 	case *ast.IndexExpr:
+		if s, ok := c.tabElem(e); ok {
+			return s // an element of a slice filled by tabulation: the function tabulated (rules_t8c10.go)
+		}
 		return c.expr(e.X) + "[" + c.expr(e.Index) + "]"
 	case *ast.SliceExpr:
 		low := c.expr(e.Low)
@@ -688,6 +717,9 @@ func (c *fdCtx) expr(e ast.Expr) string {
 	case *ast.TypeAssertExpr:
 		if e.Type == nil {
 			return c.expr(e.X) + ".(type)"
+		}
+		if v := c.memoValOf(e); v != nil {
+			return c.expr(v) // the value offered to the table, asserted to its own type
 		}
 		return c.expr(e.X) + ".(" + c.typeExpr(e.Type) + ")"
 	case *ast.CompositeLit:
@@ -971,6 +1003,8 @@ type fdWalker struct {
 	errUnread map[types.Object]bool
 	// runs with gotos / labels that prepare found to be decision tables: first statement -> length (rules_t6c10.go)
 	gotoRuns map[token.Pos]int
+	// slices filled by tabulation (rules_t8c10.go)
+	tabs *fdTabs
 }
 
 var fdTmpLocal = regexp.MustCompile("\x00[0-9]+\x00")
@@ -1436,6 +1470,14 @@ func (w *fdWalker) stmts(list []ast.Stmt, chain []fdCond) bool {
 				}
 			}
 		}
+		// a guard that leaves the function and changes nothing (rules_t8c10.go)
+		if w.neutralExit(list, i) {
+			continue
+		}
+		// the fill of a slice that is read as the function it tabulates (rules_t8c10.go)
+		if w.findTabs().skip[st] {
+			continue
+		}
 		w.errTemp(list, i)
 		dead, guards := w.stmt(st, chain)
 		if dead {
@@ -1639,6 +1681,9 @@ func (w *fdWalker) stmtN(st ast.Stmt, chain []fdCond) (dead bool, guards []fdCon
 		w.facts = fdJoinAll(outs)
 	case *ast.RangeStmt:
 		if f := w.rangeIntAsFor(s); f != nil {
+			return w.stmtN(f, chain)
+		}
+		if f := w.rangeTabAsFor(s); f != nil {
 			return w.stmtN(f, chain)
 		}
 		if f := w.rangeSliceAsFor(s); f != nil {
@@ -2080,11 +2125,15 @@ type fdResult struct {
 	Tables map[string][2]int
 	// functions on one side only that are pure helpers over integers / booleans ("side:name")
 	FuncsPure []string
+	// findings reported in their own words (rules_t8c10.go)
+	Notes []fdNote
+	// fork-only functions that give back their struct argument with some fields set to constants
+	Updaters []string
 }
 
 // ForkDiff compares the fork package with the upstream package.
-func ForkDiff(fork, up *packages.Package, files map[string]bool, laxObjs map[types.Object]bool) *fdResult {
-	fs := &fdSide{fork: true, pkg: fork, funcs: fdCollectFuncs(fork, files), laxObjs: laxObjs, dropArgs: map[types.Object]map[int]bool{}, onlyHere: map[types.Object]bool{}}
+func ForkDiff(fork, up *packages.Package, files map[string]bool, laxObjs map[types.Object]bool, memo, pure map[types.Object]bool, elem *c10Elem) *fdResult {
+	fs := &fdSide{fork: true, pkg: fork, funcs: fdCollectFuncs(fork, files), laxObjs: laxObjs, memo: memo, pureFuncs: pure, elem: elem, dropArgs: map[types.Object]map[int]bool{}, onlyHere: map[types.Object]bool{}}
 	us := &fdSide{pkg: up, funcs: fdCollectFuncs(up, files), dropArgs: map[types.Object]map[int]bool{}, onlyHere: map[types.Object]bool{}}
 	fs.extraFields, us.extraFields = fdExtraFields(fork, up), fdExtraFields(up, fork)
 	for o := range laxObjs { // the lax field itself is an extra field by construction; assert it
@@ -2093,6 +2142,7 @@ func ForkDiff(fork, up *packages.Package, files map[string]bool, laxObjs map[typ
 		}
 	}
 	res := &fdResult{}
+	fdMemoReads(fs)
 	fs.rename = fdMatchPkgVars(fs, us)
 	res.Renamed = map[string]string{}
 	for o, n := range fs.rename {
@@ -2119,6 +2169,11 @@ func ForkDiff(fork, up *packages.Package, files map[string]bool, laxObjs map[typ
 			if t := fdTransparent(fs, fo, fd); t != nil {
 				fs.transparent[fo] = t
 				res.Transparent = append(res.Transparent, "fork:"+k)
+				continue
+			}
+			// a function that gives back its struct argument with some fields set to constants (rules_t8c10.go)
+			if fdUpdater(fs, fo, fd) {
+				res.Updaters = append(res.Updaters, k)
 				continue
 			}
 			res.FuncsOnlyFork = append(res.FuncsOnlyFork, k)
@@ -2399,6 +2454,11 @@ func ForkDiff(fork, up *packages.Package, files map[string]bool, laxObjs map[typ
 	}
 	sort.Strings(res.FuncsOnlyFork)
 	sort.Strings(res.FuncsOnlyUp)
+	for _, n := range fs.notes {
+		n.Fork = true
+		res.Notes = append(res.Notes, n)
+	}
+	res.Notes = append(res.Notes, us.notes...)
 	return res
 }
 
